@@ -226,7 +226,33 @@ def charsetAgrees : Bool :=
     c_rdsparser_string_convert true (b : Nat) == (conv (Generated.cfg true) b : Int) &&
     (0x7F ≤ b || c_rdsparser_string_convert false (b : Nat) == (conv (Generated.cfg false) b : Int))
 
-def results : List Bool := runs.map runOne ++ [eccTableAgrees, charsetAgrees]
+/-- `rdsparser_utils_convert` (translated, on the libc models of the Prelude) against `utilsConvert`: valid 16 / 18
+digits in both cases, white space, signs, `0x`, wrong lengths, non-digits, a tail that `strtol` alone would accept -/
+def hexStrings : List String :=
+  ["0123456789abcdef", "0123456789ABCDEF", "32011234D318F212", "32011234D318F2121b", "32011234D318F212E4", "FFFFFFFFFFFFFFFFff",
+   " 234567890123456", "\t234ABCD5678ef90", "-234567890123456", "+234567890123456", "0x12345678901234", "1234 678901234567",
+   "12340x1290123456", "1234567890123456-1", "1234567890123456 1", "1234567890123456+f", "12345678901234560x", "",
+   "0123456789abcde", "0123456789abcdef0", "0123456789abcdef012", "0123456789abcdeg", "g123456789abcdef", "0123456789abcdefzz",
+   "0123456789abcdef 1", "01234567\n9abcdef", "0X123456789abcde", "-0x1234567890123", "0123456789ABCDEF7f"]
+
+def hexAgrees : Bool :=
+  hexStrings.all fun str =>
+    let bytes := str.toUTF8.toList.map (·.toNat)
+    let out := c_rdsparser_utils_convert (bytes.map Int.ofNat) [7, 7, 7, 7] [9, 9, 9, 9]
+    match utilsConvert bytes with
+    | none => out.1 == 0
+    | some g => out == (1, [(g.a : Int), g.b, g.c, g.d], [(g.ea : Int), g.eb, g.ec, g.ed])
+
+/-- ... and `rdsparser_parse_string` on NULL and on a rejected string leaves state and log alone -/
+def parseStringAgrees : Bool :=
+  let c := c_rdsparser_init C_librdsparser.zero
+  c_rdsparser_parse_string true c none [] == (0, c, []) &&
+  c_rdsparser_parse_string true c (some [32, 50, 51]) [] == (0, c, []) &&
+  (c_rdsparser_parse_string true c (some ("32011234D318F212".toUTF8.toList.map (fun b => (b.toNat : Int)))) []).1 == 1 &&
+  (c_rdsparser_parse_string true c (some ("32011234D318F212".toUTF8.toList.map (fun b => (b.toNat : Int)))) []).2 ==
+    c_rdsparser_parse true c [0x3201, 0x1234, 0xD318, 0xF212] [0, 0, 0, 0] []
+
+def results : List Bool := runs.map runOne ++ [eccTableAgrees, charsetAgrees, hexAgrees, parseStringAgrees]
 
 def selfTest : Bool := results.all id
 
